@@ -257,19 +257,19 @@ Definition binary_op (op : f64 -> f64 -> f64) (l r : value) : res value :=
   end.
 
 (** chrono: Duration is bounded by +-i64::MAX milliseconds; DateTime<Utc> by
-    the years +-262143.  Overflow panics in chrono's operator impls. *)
+    the years +-262143.  The checked operations are used (after the fix): a result
+    that cannot be represented is an EvalError for that row. *)
 Definition dur_max_ns := i64_max * 1000000.
 Definition dur_ok (ns : Z) : bool := (- dur_max_ns <=? ns) && (ns <=? dur_max_ns).
 Definition date_min_ns := -8334632851200 * 1000000000.
 Definition date_max_ns := 8210298412800 * 1000000000.
 Definition date_ok (ns : Z) : bool := (date_min_ns <=? ns) && (ns <? date_max_ns).
 
-Definition mk_dur (ns : Z) : res value := if dur_ok ns then Ok (VDur ns) else Panic.
-Definition mk_date (ns : Z) : res value := if date_ok ns then Ok (VDate ns) else Panic.
+Definition mk_dur (ns : Z) : res value := if dur_ok ns then Ok (VDur ns) else Err.
+Definition mk_date (ns : Z) : res value := if date_ok ns then Ok (VDate ns) else Err.
 
-(** Rust [i64 as i32] *)
-Definition wrap_i32 (z : Z) : Z :=
-  let m := z mod 2 ^ 32 in if m <? 2 ^ 31 then m else m - 2 ^ 32.
+(** [i32::try_from] *)
+Definition in_i32 (z : Z) : bool := (- 2 ^ 31 <=? z) && (z <? 2 ^ 31).
 
 Definition int_or_float (exact : Z) (fl : f64) : value :=
   if in_i64 exact then VInt exact else from_float fl.
@@ -296,8 +296,8 @@ Definition vsub (l r : value) : res value :=
 
 Definition vmul (l r : value) : res value :=
   match l, r with
-  | VDur a, VInt b => mk_dur (a * wrap_i32 b)
-  | VInt a, VDur b => mk_dur (b * wrap_i32 a)
+  | VDur a, VInt b => if in_i32 b then mk_dur (a * b) else Err
+  | VInt a, VDur b => if in_i32 a then mk_dur (b * a) else Err
   | VFloat a, VFloat b => Ok (from_float (fmul a b))
   | VInt a, VInt b => Ok (int_or_float (a * b) (fmul (f_of_Z a) (f_of_Z b)))
   | _, _ => binary_op fmul l r
@@ -306,7 +306,6 @@ Definition vmul (l r : value) : res value :=
 Definition vdiv (l r : value) : res value :=
   match l, r with
   | VDur a, VInt b =>
-      let d := wrap_i32 b in
-      if d =? 0 then Panic else Ok (VDur (Z.quot a d))
+      if in_i32 b && negb (b =? 0) then Ok (VDur (Z.quot a b)) else Err
   | _, _ => binary_op fdiv l r
   end.
